@@ -1221,12 +1221,15 @@ func (fv *FuncVC) ret(in *ssa.Return) {
 	}
 	env := fv.newEnv(fv.cur, fv.entry)
 	env.bindResults(fv.C, fv.Fn, res)
+	assumeUntagged := false
 	if r := fv.C.Flags["assumepost"]; r != "" {
-		fv.trustedUse["postconditions of "+fv.Name+" are assumed, not proved (safety obligations are still generated): "+r] = true
-		fv.checkGlobalInvsAtExit(in.Pos())
-		return
+		fv.trustedUse["untagged postconditions of "+fv.Name+" are assumed, not proved (safety obligations and property-tagged clauses are still checked): "+r] = true
+		assumeUntagged = true
 	}
 	for _, e := range fv.C.Ensures {
+		if assumeUntagged && len(e.Props) == 0 {
+			continue
+		}
 		if e.Assumed {
 			fv.trustedUse["assumed postcondition of "+fv.Name+": "+e.Src] = true
 			continue
